@@ -36,9 +36,15 @@ theorem taggedOkB_sound (md : List Feat) (base : List (Nat × Attrs)) (L : List 
       · rw [hno.2] at hyn; cases hyn
 
 theorem wfB_sound (d : Doc) (h : wfB d = true) : WF d := by
-  simp only [wfB, Bool.and_eq_true, List.all_eq_true, Bool.or_eq_true] at h
+  simp only [wfB, Bool.and_eq_true] at h
+  obtain ⟨h, hself⟩ := h
+  simp only [wfCoreB, Bool.and_eq_true, List.all_eq_true, Bool.or_eq_true] at h
   obtain ⟨⟨⟨⟨⟨⟨h1, h2⟩, h3⟩, h4⟩, h5⟩, h6⟩, h7⟩ := h
-  refine ⟨?_, h2, nodupB_sound _ h3, ?_, ?_, ?_, taggedOkB_sound _ _ _ h7⟩
+  refine ⟨?_, h2, nodupB_sound _ h3, ?_, ?_, ?_, taggedOkB_sound _ _ _ h7, ?_⟩
+  rotate_right
+  · intro x hx
+    simp only [noSelfLinkB, List.all_eq_true, bne_iff_ne, ne_eq] at hself
+    exact hself x hx
   · intro s hs
     have := h1 s hs
     simp only [spotOkB, Bool.and_eq_true] at this
